@@ -1,6 +1,6 @@
 (* C20 -- Binding handshakes: every wait ends cleanly.  Statements only. *)
 From Coq Require Import List Bool Arith.
-From RV Require Import M_Bind P_Bind.
+From RV Require Import M_Bind P_Bind M_BindAttempts P_BindAttempts.
 Import ListNotations.
 
 (* for EVERY history (any instants, any events in any order, repeats, with or without a state timer):
@@ -49,3 +49,24 @@ Theorem C20_phases_exclusive : forall c v d p q, is_phase c v d p = true -> is_p
 Proof. exact phases_exclusive. Qed.
 Theorem C20_offer_is_not_confirm : forall c v d, is_phase c v d Tender = true -> is_phase c v d Affirm = false.
 Proof. exact offer_is_not_confirm. Qed.
+
+(* ---- several attempts on one context: an attempt can be abandoned (its caller gives up, a send raises) and retried ---- *)
+(* no abandoned state object ever keeps an armed timer, for every history of waits, abandons, retries and timers *)
+Theorem C20_abandon_leaves_no_timer : forall hst instants, c_stale (arun true hst instants) = 0.
+Proof. exact abandon_leaves_no_timer. Qed.
+(* an abandoned attempt leaves the device not binding: a new attempt can start *)
+Theorem C20_abandon_ends_binding : forall cf c, binding (c_cur (astep cf c AAbandon)) = false.
+Proof. exact abandon_ends_binding. Qed.
+(* after ANY history on the context, once the device is not binding, a new attempt -- with whatever old timers coming due
+   during it -- evolves exactly as a first attempt on a fresh context does (so all the single-wait theorems above apply to it) *)
+Theorem C20_retry_is_fresh : forall hst0 h1 hst i0 h2,
+  binding (c_cur (arun true hst0 h1)) = false ->
+  c_cur (afold true (arun true hst0 h1) ((ANew hst :: lift i0) :: map lift h2)) = fst (run true hst (strip i0 :: map strip h2)).
+Proof. exact retry_is_fresh. Qed.
+(* witness: were the state replaced before its timer is looked up, an attempt given up at once would fail its successor *)
+Theorem C20_wrong_abandon_order_refuted :
+  b_ctx (c_cur (arun false true h_retry)) = CFailed /\ b_w (c_cur (arun false true h_retry)) <> Done OkMsg /\ c_exn (arun false true h_retry) = 1.
+Proof. exact wrong_order_refuted. Qed.
+Theorem C20_right_abandon_order_witness :
+  b_ctx (c_cur (arun true true h_retry)) = CNext /\ b_w (c_cur (arun true true h_retry)) = Done OkMsg /\ c_exn (arun true true h_retry) = 0.
+Proof. exact right_order_witness. Qed.
